@@ -295,6 +295,8 @@ func Check(c Case) *kit.Violation {
 	}
 	wantFields := url.Values{}
 	for _, f := range c.Fields {
+		// one SetFormParam call per entry: a later call for the same field replaces what an earlier one set (r7)
+		delete(wantFields, string(f.Name))
 		for _, v := range f.Values {
 			wantFields.Add(string(f.Name), string(v))
 		}
